@@ -414,6 +414,8 @@ SendCall draw_send(DP &dp, bool in_range_only, int only_fn) {
 				int tot = len;
 				len = dp.range(0, tot);
 				p2len = tot - len;
+				// both buffers large: sums beyond 255 (8-bit length arithmetic must not wrap into the accepted range)
+				if (dp.chance(40)) { len = dp.range(100, 255); p2len = dp.range(100, 255); }
 			}
 			if (!strcmp(f.name, "bidib_send_bm_mirror_multiple")) {
 				len = (c.a[1] + 7) / 8;          // the caller's bitmap has size/8 bytes
